@@ -654,6 +654,46 @@ def case_cmp(c, out):
     out.fail("set-merge", "%s: set of values has wrong cardinality" % t, type=t)
 
 
+_FOREIGN = ["none", "junk-text", "empty-text", "int", "float", "object", "short-bytes", "tuple", "other-family-text", "other-family-obj"]
+
+
+def _foreign(A, t, kind):
+  if kind == "none": return None
+  if kind == "junk-text": return "not an address"
+  if kind == "empty-text": return ""
+  if kind == "int": return 5
+  if kind == "float": return 1.5
+  if kind == "object": return object()
+  if kind == "short-bytes": return b"xy"
+  if kind == "tuple": return (1, 2)
+  if kind == "other-family-text": return "::1" if t != "ip6" else "1.2.3.4"
+  return A.IPAddr6("::1") if t == "ip4" else A.IPAddr("1.2.3.4")
+
+
+def case_cmpforeign(c, out):
+  """== and != against an operand that is not an address of this type must stay complementary
+  (whatever the verdict is) whenever both return; exceptions are not judged here."""
+  A, U = _mods()
+  t = c["t"]
+  if t == "ip4":
+    a = A.IPAddr(c["a"])
+  elif t == "ip6":
+    a = A.IPAddr6(c["a"], raw=True)
+  else:
+    a = A.EthAddr(c["a"])
+  o = _foreign(A, t, c["o"])
+  out.nontrivial = True
+  r1, eq = _raises(lambda: a == o)
+  r2, ne = _raises(lambda: a != o)
+  if r1 or r2:
+    out.label("cmpforeign-raises-not-judged")
+    return
+  if not isinstance(eq, bool) or not isinstance(ne, bool):
+    out.fail("eq-ne-foreign", "%s: %r ==/!= %r returned %r / %r (not booleans)" % (t, a, o, eq, ne), type=t, operand=c["o"])
+  elif eq == ne:
+    out.fail("eq-ne-foreign", "%s: %r == %r is %s and != is %s" % (t, a, o, eq, ne), type=t, operand=c["o"])
+
+
 def _ref_dpid_str(d, always_long):
   lo, hi = d & 0xffffffffffff, d >> 48
   s = "-".join("%02x" % ((lo >> s) & 255) for s in range(40, -8, -8))
@@ -694,7 +734,7 @@ _CASES = {
   "ip4badmask": case_ip4badmask, "ip4text": case_ip4text,
   "ip6": case_ip6, "ip6text": case_ip6text, "ip6bad": case_ip6bad, "ip6net": case_ip6net,
   "ip6cidr": case_ip6cidr, "ip6badmask": case_ip6badmask,
-  "eth": case_eth, "ethnone": case_ethnone, "ethbad": case_ethbad, "cmp": case_cmp,
+  "eth": case_eth, "ethnone": case_ethnone, "ethbad": case_ethbad, "cmp": case_cmp, "cmpforeign": case_cmpforeign,
   "dpid": case_dpid, "dpidbad": case_dpidbad,
 }
 
@@ -918,6 +958,10 @@ def enum_cmp(tier):
   ve = [bytes.fromhex(h) for h in ("000000000000", "000000000001", "010000000000", "00ff00000000", "ffffffffffff", "800000000000", "7fffffffffff")]
   for a, b, c in itertools.product(ve, repeat=3):
     yield {"k": "cmp", "t": "eth", "a": a, "b": b, "c": c}
+  for t, vals in (("ip4", v4), ("ip6", v6), ("eth", ve)):
+    for a in vals:
+      for o in _FOREIGN:
+        yield {"k": "cmpforeign", "t": t, "a": a, "o": o}
 
 
 def enum_dpid(tier):
@@ -1020,6 +1064,8 @@ def _strategy(tier):
     _s_net(128, "ip6net", _STYLES6), _s_cidr(128, "ip6cidr", ["cidr", "mask", "plain"]), _s_badmask(128, "ip6badmask"),
     st.tuples(_raw(6), st.lists(st.sampled_from([1, 2]), min_size=6, max_size=6)).map(lambda t: {"k": "eth", "raw": t[0], "shape": t[1]}),
     cmp_s,
+    st.one_of(st.tuples(st.just("ip4"), _raw(4)), st.tuples(st.just("ip6"), _raw(16)), st.tuples(st.just("eth"), _raw(6))).flatmap(
+        lambda t: st.sampled_from(_FOREIGN).map(lambda o: {"k": "cmpforeign", "t": t[0], "a": t[1], "o": o})),
     st.tuples(_u(64), st.booleans()).map(lambda t: {"k": "dpid", "v": t[0], "long": t[1]}),
   )
 
